@@ -11,10 +11,56 @@ def lossy_rows(t, n):
   rows, r = [], 0
   for b in gen.tree_leaves(t):
     k = 1 if b['k'] == 'leaf' else len(b['flows'])
-    if b['dev']['cls'] == 'SDevice' and b['dev']['prm'].get('efficiency', '1') != '1':
+    if b['k'] == 'leaf' and b['dev']['cls'] == 'SDevice' and b['dev']['prm'].get('efficiency', '1') != '1':
       rows += list(range(r, r + k))
     r += k
   return rows
+
+
+PAIR_CLIPS = [rc for rc, form in G.RATE_CLIPS if rc is not None and form == 'pair']
+
+
+def one_way_device(rng, tier, n):
+  """a device a multi-flow adaptor accepts (all flows of one sign) whose constraint Jacobians are worth wrapping:
+  a storage that only charges (bounds (0, hb)) or only discharges ((lb, 0)), lossy most of the time so that its Jacobian
+  depends on the flow, or a thermal device."""
+  if rng.random() < 0.25:
+    d = gen.gen_leaf(rng, tier, ['TDevice'], n=n)
+    return d
+  d = gen.gen_leaf(rng, tier, ['SDevice'], n=n)
+  mag = [C.dy(rng, Fraction(1, 2), 4) for _ in range(n)]
+  if rng.random() < 0.6:
+    d['lb'] = ['0']*n; d['hb'] = [C.fs(m) for m in mag]
+  else:
+    d['lb'] = [C.fs(-m) for m in mag]; d['hb'] = ['0']*n
+  d['_py']['bform'] = 'table'
+  d['cbs'] = []; d['_py']['cform'] = None
+  if rng.random() < 0.7:
+    d['prm']['efficiency'] = rng.choice(['1/2', '3/4', '7/8'])
+  return d
+
+
+def mf_lossy_blocks(t, n):
+  """(first row, number of conduits, sign) of every adaptor around a lossy storage: its kink is where a conduit SUM is 0."""
+  out, r = [], 0
+  for b in gen.tree_leaves(t):
+    k = 1 if b['k'] == 'leaf' else len(b['flows'])
+    d = b['dev']
+    if b['k'] == 'mf' and d['cls'] == 'SDevice' and d['prm'].get('efficiency', '1') != '1':
+      out.append((r, k, -1.0 if any(C.F(v) < 0 for v in d['lb']) else 1.0))
+    r += k
+  return out
+
+
+def off_sum_kink(x, n, blocks):
+  """move the first conduit so that no conduit sum of a wrapped lossy storage is within 1e-3 of zero."""
+  x = x.copy()
+  for (r0, k, sign) in blocks:
+    for i in range(n):
+      tot = sum(x[(r0 + r)*n + i] for r in range(k))
+      if abs(tot) < 1e-3:
+        x[r0*n + i] += sign*0.125
+  return x
 
 
 def off_kink(x, idx):
@@ -83,13 +129,13 @@ class C06(Prop):
               'DK.C06.ofLeaf_isMGrad', 'DK.C06.ofMF_isMGrad', 'DK.C06.tree_cons_isMGrad', 'DK.C06.shipped_tree_isMGrad']
   rule = ('leaf cases: every atomic class x cumulative-bound form x storage variants x ADevice user constraints (as C03); tree cases: random '
           'asymmetric trees (depth 1..3, fan-out 1..3, children with different row counts) with multi-flow adaptors (1..3 conduits, wrapped '
-          'device with cumulative bounds / user constraints) and two-ratio sets (eq / ineq), aggregate bounds (equality and range), '
+          'device with cumulative bounds / user constraints; 40 % around a charge-only or discharge-only storage, mostly lossy, or a thermal device) and two-ratio sets (eq / ineq), aggregate bounds (equality and range), '
           'sub-balanced sets; two probe matrices each (zeros included for T2). non-trivial: the tree has >= 2 rows and some constraint with a '
           'Jacobian reads >= 2 variables')
-  sizes = {'quick': 700, 'thorough': 8000}
+  sizes = {'quick': 700, 'thorough': 6000}
   assumptions = ['oracle: central finite differences (h=1e-5 and 8e-5; entries where the two disagree are kinks and skipped) along every '
                  'coordinate when R*n <= 16, else 6 coordinates + 10 dense random directions; lossy-storage rows are moved off 0 first',
-                 'T2 compares (type, has-Jacobian, value, flat Jacobian) per constraint at the probes as a multiset']
+                 'T2 compares (type, has-Jacobian, value, flat Jacobian) per constraint at the probes as a multiset: each model row is paired with the nearest unused implementation row of the same length']
 
   def __init__(self):
     self.hist = {}
@@ -112,31 +158,37 @@ class C06(Prop):
       else:
         t, n = gen.gen_tree(rng, tier, want_mf=rng.random() < 0.7)
         for b in gen.tree_leaves(t):
+          if b['k'] == 'mf' and rng.random() < 0.4:
+            b['dev'] = one_way_device(rng, tier, n)        # an adaptor around a charge-only / discharge-only storage, or a thermal device
           d = b['dev']
-          if d['cls'] == 'SDevice' and rng.random() < 0.4:
-            d['prm']['rate_clip'] = list(rng.choice(G.RATE_CLIPS[1:]))
-          if b['k'] == 'mf' and d['cls'] not in ('CDevice2', 'TDevice') and rng.random() < 0.5:
+          if d['cls'] == 'SDevice' and rng.random() < 0.5:
+            d['prm']['rate_clip'] = list(rng.choice(PAIR_CLIPS))
+          if b['k'] == 'mf' and d['cls'] != 'CDevice2' and rng.random() < 0.5:
             lb = [C.F(x) for x in d['lb']]; hb = [C.F(x) for x in d['hb']]
             rows, pyform, _ = G.gen_cbound_form(rng, n, lb, hb)
             d['cbs'] = [[C.fs(r[0]), C.fs(r[1]), r[2], r[3]] for r in rows]; d['_py']['cform'] = pyform
         probes = [gen.tree_flow(rng, t, n, m) for m in ('interior', 'mixed')]
         out.append({'kind': 'tree', 'tree': t, 'n': n, 'probes': probes, 'oseed': rng.randrange(1 << 30)})
+    G.prefetch([self.line(c) for c in out])
     return out
 
-  def ops(self, case):
+  def line(self, case):
     if case['kind'] == 'leaf':
-      d = case['dev']
-      dev = build.build_block_device(d, 'dev')
+      return {'op': 'cons.leaf', 'dev': case['dev'], 'probes': case['probes'], 'jac': True}
+    return {'op': 'cons.tree', 'tree': case['tree'], 'n': case['n'], 'probes': case['probes'], 'jac': True}
+
+  def ops(self, case):
+    line = self.line(case)
+    mrows = G.model_rows(line)
+    if case['kind'] == 'leaf':
+      dev = G.build_dev(case['dev'], 'dev')
       P = [build.arr(x) for x in case['probes']]
       if case.get('_shape') == 'row':
         P = [x.reshape(1, -1) for x in P]
-      return [Op({'op': 'cons.leaf', 'dev': d, 'probes': case['probes'], 'jac': True},
-                 lambda: G.canon_rows(dev.constraints, P, True), 1e-9, 'leaf constraint Jacobians')]
-    t = case['tree']
-    dev = build.build_tree(t)
+      return [Op(line, lambda: G.align_rows(mrows, G.impl_rows(dev.constraints, P, True)), 1e-9, 'leaf constraint Jacobians')]
+    dev = build.build_tree(case['tree'])
     P = [build.arr(x).reshape(-1) for x in case['probes']]
-    return [Op({'op': 'cons.tree', 'tree': t, 'n': case['n'], 'probes': case['probes'], 'jac': True},
-               lambda: G.canon_rows(dev.constraints, P, True), 1e-9, 'tree constraint Jacobians')]
+    return [Op(line, lambda: G.align_rows(mrows, G.impl_rows(dev.constraints, P, True)), 1e-9, 'tree constraint Jacobians')]
 
   def oracle(self, case):
     np = G.np()
@@ -144,11 +196,11 @@ class C06(Prop):
     fails = []
     if case['kind'] == 'leaf':
       d = case['dev']; n = d['n']
-      dev = build.build_block_device(d, 'dev')
+      dev = G.build_dev(d, 'dev')
       lossy = d['cls'] == 'SDevice' and d['prm'].get('efficiency', '1') != '1'
       self.bump('leaf:' + d['cls'])
       for x in case['probes']:
-        xa = build.arr(x)
+        xa = build.arr(x).astype(float)      # (integer-typed probe arrays would truncate the move off the kink)
         if lossy:
           xa = off_kink(xa, range(n))
         if case.get('_shape') == 'row':
@@ -171,9 +223,14 @@ class C06(Prop):
     if any(b['k'] == 'mf' and b.get('ratios') for b in gen.tree_leaves(t)):
       self.bump('tree:ratio')
     idx = [r*n + i for r in lossy_rows(t, n) for i in range(n)]
+    mfl = mf_lossy_blocks(t, n)
+    if mfl:
+      self.bump('tree:mf-around-lossy-storage')
+    if any(b['k'] == 'mf' and b['dev']['cls'] == 'TDevice' for b in gen.tree_leaves(t)):
+      self.bump('tree:mf-around-thermal')
     label = type(dev).__name__
     for S in case['probes']:
-      x = off_kink(build.arr(S).reshape(-1), idx)
+      x = off_sum_kink(off_kink(build.arr(S).reshape(-1).astype(float), idx), n, mfl)
       for kind, detail in check_jacobians(dev.constraints, x, R*n, rng, '%s (%d rows x %d slots)' % (label, R, n)):
         fails.append({'key': {'cls': label, 'kind': kind}, 'detail': detail})
       if fails:
